@@ -101,6 +101,20 @@ impl Prop for C06 {
                     ops.push(AppOp::ReadCancel {
                         polls: rng.below(4) as u32,
                     });
+                    // ... and right behind the dropped read a write that does not get through
+                    // either: the reply the read left unfinished must survive that too
+                    if rng.chance(1, 3) {
+                        if rng.chance(1, 2) {
+                            if let Some(u) = gen::gen_unencodable_frame(rng, mode) {
+                                ops.push(AppOp::Write(u));
+                            }
+                        } else {
+                            ops.push(AppOp::WriteCancel {
+                                frame: gen::gen_out_frame(rng, mode, stats),
+                                polls: rng.below(3) as u32,
+                            });
+                        }
+                    }
                 } else {
                     ops.push(AppOp::Read);
                     reads_left -= 1;
